@@ -171,6 +171,11 @@ class P(Prop):
                     # queries on the breakpoints themselves; the very first query of the fresh evaluator is the smallest one
                     srt = sorted(good, key=lambda b: C.fl(b))
                     xs = [srt[0]] + [rng.choice(srt + [C.next_up(e) for e in srt] + [C.next_down(e) for e in srt]) for _ in range(5)] + xs[:4]
+                if good and rng.random() < 0.5:
+                    # NaN queries in the MIDDLE of the history, followed by moves forward across breakpoints
+                    srt = sorted(good, key=lambda b: C.fl(b))
+                    mid = [C.bits(C.fl(srt[0]) - 1.0), C.NAN_BITS, C.next_up(srt[-1]), C.NAN_BITS] + [rng.choice(srt) for _ in range(3)]
+                    xs = mid + xs[:5]
                 out.append(dict(op="arb_eval", ty=ty, bytes=bs, xs=xs, meta={"class": "eval/" + style}))
         # nested functions: the piece decoder of the outer function is fallible
         for i in range(max(40, n // 4)):
